@@ -27,6 +27,10 @@ contains
     real, intent(out) :: q
     q = p
   end subroutine
+  subroutine f_blank(p)
+    real, intent(in out) :: p
+    p = p + 1.0
+  end subroutine
   subroutine f_out2(k, q)
     integer, intent(out) :: k
     real, intent(out) :: q
@@ -62,6 +66,7 @@ CASES = [
     (('visit_CallStatement',), "call f_intent(x, y)", 'CallStatement', {'x'}, {'y'}),
     (('visit_CallStatement',), "call f_intent(a(i), b(j))", 'CallStatement', {'a', 'i', 'j'}, {'b'}),
     (('visit_CallStatement',), "call f_out2(i, a(i))", 'CallStatement', {'i'}, {'i', 'a'}),
+    (('visit_CallStatement',), "call f_blank(x)", 'CallStatement', {'x'}, {'x'}),
     (('visit_CallStatement',), "call unknown_routine(x, a(i))", 'CallStatement', {'x', 'a', 'i'}, {'x', 'a'}),
     (('visit_InternalNode',), "x = y\n  z = x", 'BODY', {'y'}, {'x', 'z'}),
     (('visit_Associate',), "associate (PFLD => a, psrc => b)\n pfld(1) = PSRC(n)\n end associate", 'Associate',
